@@ -109,10 +109,10 @@ def sched_stop_model(chk):
     d = os.path.join(VERIF, "spec", "core")
     vlib.tlc_check(chk, "SchedStop: stop test (is_empty, num_blocked, twice) vs suspend / resume_and_push as coded, exhaustive",
                    os.path.join(d, "SchedStop.tla"), os.path.join(d, "SchedStopMC.cfg"), timeout=600)
-    r = vlib.tlc_check(chk, "SchedStop with decrement-before-push (must be violated)", os.path.join(d, "SchedStop.tla"),
-                       os.path.join(d, "SchedStopDecFirst.cfg"), timeout=300, expect="violation")
-    if not r["violated"]:
-        raise vlib.Broken("the decrement-first variant of SchedStop is not rejected: the invariants are vacuous")
+    for cfg, what in (("SchedStopDecFirst.cfg", "decrement-before-push"), ("SchedStopEarlyReturn.cfg", "a scheduler whose run() returns without the stop test (defect S4)")):
+        r = vlib.tlc_check(chk, "SchedStop with %s (must be violated)" % what, os.path.join(d, "SchedStop.tla"), os.path.join(d, cfg), timeout=300, expect="violation")
+        if not r["violated"]:
+            raise vlib.Broken("the variant of SchedStop (%s) is not rejected: the invariants are vacuous" % what)
 
 
 def mig_proto_model(chk):
@@ -151,20 +151,28 @@ def run_exec(pid, tier, seed, emphasis, scns=("exec",), pre=None):
     per = 50 if quick else 250
     jobs = []
     n = max(per, n // len(scns))
+    def applicable(scn, cfg, nes):
+        if scn == "migrace" and (nes < 2 or cfg):
+            return False
+        if scn == "xjoin" and (nes < 1 or cfg == 4):
+            return False            # shared pools: blocked units are not counted by the stop test (documented)
+        if scn == "cancelmix" and nes < 1:
+            return False
+        if scn == "ryt" and (cfg != 4 or nes < 2):
+            return False
+        if scn == "replace" and (cfg or nes):
+            return False
+        return True
+
     for scn in scns:
         for cfg in range(6):
             for nes in (0, 1, 2):
-                if scn == "migrace" and (nes < 2 or cfg):
+                if not applicable(scn, cfg, nes):
                     continue
-                if scn == "xjoin" and (nes < 1 or cfg == 4):
-                    continue
-                if scn == "cancelmix" and nes < 1:
-                    continue
-                if scn == "ryt" and (cfg != 4 or nes < 2):
-                    continue
-                if scn == "replace" and (cfg or nes):
-                    continue
-                for off in range(0, n * (6 if scn in ("ryt", "replace") else 1), per):
+                mult = 6 if scn in ("ryt", "replace") else 1
+                if scn == "xjoin" and cfg in (2, 5):
+                    mult = 8        # the waiting scheduler leaves its loop on other paths than the others (defect S4)
+                for off in range(0, n * mult, per):
                     opts = ("nes=%d" % nes, "cfg=%d" % cfg)
                     if scn == "migrate" and nes == 2 and (off // per) % 2:
                         opts += ("dead=1",)   # a joined, not yet freed stream with a low rank is in the stream list
@@ -173,7 +181,9 @@ def run_exec(pid, tier, seed, emphasis, scns=("exec",), pre=None):
                                      env={"ABTV_BUDGET": "400000"}))
         if not quick:
             for cfg in range(6):
-                for nes in ((0,) if scn == "switch" else (1, 2)):   # (observations are snapshots only when serialized)
+                for nes in ((0,) if scn in ("switch", "replace") else (1, 2)):   # (observations are snapshots only when serialized)
+                    if not applicable(scn, cfg, nes):
+                        continue
                     jobs.append(dict(exe=exe, scn=scn, seed0=seed * 1000000 + 700001, count=300,
                                      opts=("nes=%d" % nes, "cfg=%d" % cfg), mode="free", env={"ABTV_PERTURB": "1"}, timeout=900))
     runs = vlib.sweep(jobs)
